@@ -40,6 +40,11 @@ pub(crate) fn run() -> Result<(), Error> {
         process::exit(EXIT_INVALID_TARGET);
     }
     let cwd = env::current_dir()?;
+    if want.to_str().is_none() || cwd.to_str().is_none() {
+        // redo's names are UTF-8 (the builder refuses such a target too)
+        log_err!("could not use {:?} as redo path\n", want);
+        process::exit(EXIT_INVALID_TARGET);
+    }
     let want = redo::abs_path(&cwd, Path::new(&want));
     // The same name the builder looks rules up for: the physical one
     // (symbolic links in the directory part resolved), not the spelling.
@@ -51,7 +56,7 @@ pub(crate) fn run() -> Result<(), Error> {
             continue;
         }
         let relpath = redo::relpath(&do_path, &cwd)?;
-        let relpath_str = relpath.as_os_str().to_str().unwrap();
+        let relpath_str = relpath.as_os_str().to_string_lossy();
         assert!(!relpath_str.contains('\n'));
         println!("{}", relpath_str);
         if do_path.exists() {
@@ -61,6 +66,6 @@ pub(crate) fn run() -> Result<(), Error> {
 
     Err(anyhow!(
         "no appropriate dofile found for {}",
-        env::args().nth(1).unwrap()
+        env::args_os().nth(1).unwrap().to_string_lossy()
     ))
 }
